@@ -242,7 +242,7 @@ Theorem step_with_error_never_panics now m :
   match step_with_error now m with
   | Ok _ m' | Err _ m' => mwf m' /\ rom (mbus m') = rom (mbus m)
   | Panic => False
-  | OutOfFuel => True
+  | OutOfFuel => False
   end.
 Proof.
   intros W. pose proof (step_with_error_safe m now m (st_refl m W)) as K.
@@ -270,7 +270,7 @@ Fixpoint run_steps_err (nows : list Z) (m : mach) : trace_end :=
 Theorem all_steps_never_panic nows : forall m, mwf m ->
   match run_steps_err nows m with
   | TGood m' => mwf m' /\ rom (mbus m') = rom (mbus m)
-  | TFuel => True
+  | TFuel => False
   | TPanic => False
   end.
 Proof.
